@@ -282,13 +282,8 @@ fn apply(obj: &mut Obj, pl: &Placed, p: StatusPurpose, op: &Value) -> Value {
         Ok(()) => json!({"ok": true, "v": "valid"}),
         Err(JwtValidationError::Revoked) => json!({"ok": true, "v": "revoked"}),
         Err(JwtValidationError::Suspended) => json!({"ok": true, "v": "suspended"}),
-        Err(JwtValidationError::InvalidStatus(e)) => {
-          if e.to_string().contains("doesn't match") {
-            err("mismatch")
-          } else {
-            err("oob")
-          }
-        }
+        // which of the applicable reasons is named, and in which words, is not part of the property
+        Err(JwtValidationError::InvalidStatus(_)) => err("invalid_status"),
         Err(e) => err(&format!("unexpected error {e}")),
       }
     }
